@@ -6,7 +6,7 @@ import re
 
 from hypothesis import strategies as st
 
-SCALARS = ["uint8", "int8", "uint16", "int16", "uint32", "int32", "uint64", "int64", "char", "wchar", "uint24", "int128", "float", "double", "BYTE", "WORD", "DWORD", "unsigned int", "unsigned long long", "signed short"]
+SCALARS = ["uint8", "int8", "uint16", "int16", "uint32", "int32", "uint64", "int64", "char", "wchar", "uint24", "int128", "float", "double", "BYTE", "WORD", "DWORD", "unsigned int", "unsigned long long", "signed short", "int48", "uint48", "int24"]
 INTS = ["uint8", "int8", "uint16", "int16", "uint32", "int32", "uint64"]
 
 
@@ -70,6 +70,8 @@ def struct_body(draw, env, depth, kind="struct", keywords=False, prefix=""):
             # an anonymous member's field names are folded into ours: generate them with a unique prefix
             sub, d2 = draw(struct_body(env, depth - 1, k2, keywords, prefix=f"{nm}_" if anon_member else ""))
             deps |= d2
+            # tags are unique: C gives struct tags file scope, so a repeated tag with another body is not a valid
+            # definition (cross-definition collisions are exercised by C13's dedicated collision stage)
             tag = draw(st.sampled_from(["", "", f" tag_{nm}"])) if nm != "_" else ""
             if anon_member:
                 lines.append(f"{k2} {{ {sub} }};")
